@@ -44,14 +44,18 @@ theorem buildAttrs_spec (start : Nat) (as : List Attr) :
   induction as generalizing start with
   | nil => exact ⟨Nat.le_refl _, fun a => by simp [buildAttrs, cntL_nil, ivl_empty]⟩
   | cons x r ih =>
-    obtain ⟨m1, m2⟩ := mkItems_ivl (start + 1) x.vals
-    obtain ⟨r1, r2⟩ := ih (mkItems (start + 1) x.vals).2
     simp only [buildAttrs]
-    refine ⟨by omega, fun a => ?_⟩
-    rw [cntL_cons, cnt_mk, cntL_nil, r2 a, m2 a, ivl_one]
-    have e1 := ivl_add start (start + 1) (mkItems (start + 1) x.vals).2 a (by omega) m1
-    have e2 := ivl_add start (mkItems (start + 1) x.vals).2 (buildAttrs (mkItems (start + 1) x.vals).2 r).2 a (by omega) r1
-    omega
+    by_cases hns : isNsDecl x.name = true
+    · simp only [hns, if_true]; exact ih start
+    · simp only [hns]
+      obtain ⟨m1, m2⟩ := mkItems_ivl (start + 1) x.vals
+      obtain ⟨r1, r2⟩ := ih (mkItems (start + 1) x.vals).2
+      refine ⟨by simp only [Bool.false_eq_true, if_false]; omega, fun a => ?_⟩
+      simp only [Bool.false_eq_true, if_false]
+      rw [cntL_cons, cnt_mk, cntL_nil, r2 a, m2 a, ivl_one]
+      have e1 := ivl_add start (start + 1) (mkItems (start + 1) x.vals).2 a (by omega) m1
+      have e2 := ivl_add start (mkItems (start + 1) x.vals).2 (buildAttrs (mkItems (start + 1) x.vals).2 r).2 a (by omega) r1
+      omega
 
 mutual
 theorem buildNode_spec (start : Nat) : (i : Item) →
